@@ -16,12 +16,14 @@ import os
 
 import vlib
 
-KINDS = ["t1issuer", "t5issuer", "t2issuer", "t3issuer", "batch", "eckey", "edkey", "edfirst", "ecfirst", "t2raw", "t3raw", "t1odd"]
+KINDS = ["t1issuer", "t5issuer", "t2issuer", "t3issuer", "batch", "eckey", "edkey", "edfirst", "ecfirst", "t2raw", "t3raw", "t1odd", "t1warm", "batchcollide"]
 # "edfirst"/"ecfirst": the same programs as edkey/eckey, each in a process of its own where the program's concurrent
 # calls are the first use of the package (lazy package-level tables behind sync.Once are initialised by racing goroutines)
 # "t1odd": the type-1 issuer programs with requests whose element is in uncompressed form (refused - concurrently too)
+# "t1warm": the type-1 programs on an issuer whose key object had its public key computed (and another issuer built from it) before
+# "batchcollide": the batch programs with two type-1 issuers whose key ids end in the same byte (the first configured answers)
 # "t2raw"/"t3raw": the issuer programs on an issuer whose RSA key was assembled from its components (nothing precomputed)
-GEN_CFG = {"edfirst": "edkey", "ecfirst": "eckey", "t2raw": "t2issuer", "t3raw": "t3issuer", "t1odd": "t1issuer"}
+GEN_CFG = {"edfirst": "edkey", "ecfirst": "eckey", "t2raw": "t2issuer", "t3raw": "t3issuer", "t1odd": "t1issuer", "t1warm": "t1issuer", "batchcollide": "batch"}
 
 
 def describe(e, case):
@@ -51,7 +53,7 @@ def run(ctx):
         ctx.model_check("Concurrency", "MC_Conc_voprf_thorough.cfg", workers=16)
     beh, seen = [], set()
     for k in KINDS:
-        ov = {"Procs": '{"g1", "g2", "g3"}'} if (ctx.thorough and k in ("t1issuer", "t5issuer")) or k == "batch" else None
+        ov = {"Procs": '{"g1", "g2", "g3"}'} if (ctx.thorough and k in ("t1issuer", "t5issuer")) or k in ("batch", "batchcollide") else None
         for b in ctx.generate("Gen_Conc", cfg="Gen_Conc_%s.cfg" % GEN_CFG.get(k, k), workers=1, overrides=ov):
             prog = [b[g] for g in sorted(b)]
             sig = (k, tuple(sorted(tuple(p) for p in prog)))     # goroutines are interchangeable
